@@ -1105,6 +1105,7 @@ impl<'a> Run<'a> {
 
     fn flush_slot(&mut self, k: usize) -> VResult<()> {
         let res = self.call("flush", |s| session::file_flush(s.files[k].as_mut().unwrap()))?;
+        let flushed = res.is_ok();
         if let Err(e) = res {
             self.lib_err = true;
             if self.cfg.wants(Aspect::File) {
@@ -1114,7 +1115,8 @@ impl<'a> Run<'a> {
         if let Some(f) = self.files[k].as_mut() {
             f.dirty = false;
         }
-        if self.crash {
+        // a flush point exists only where flush() returned successfully
+        if self.crash && flushed {
             if let Some(n) = self.files[k].as_ref().map(|f| f.node) {
                 self.record_flush_event(n);
             }
